@@ -15,6 +15,9 @@ type PConfig struct {
 	AllowInsecureAuth bool  `json:"insecure_auth,omitempty"`
 	AuthBackend       bool  `json:"auth_backend,omitempty"`
 	LMTPBackend       bool  `json:"lmtp_backend,omitempty"` // sessions implement LMTPSession
+	// LineMax: the server's MaxLineLength (0: default). The model does not look at it: every line of the alphabets is
+	// shorter, so a small value only makes the real server's line accounting part of what is explored.
+	LineMax int `json:"line_max,omitempty"`
 }
 
 // PState is the reference protocol state (Appendix A of DESIGN.md).
@@ -408,7 +411,11 @@ func Step(cfg PConfig, s PState, c Cmd, k int) StepExp {
 		if s.Failed {
 			// the backend has already given up on this message: the chunk fails
 			calls = append(calls, Call{Kind: "Reset"})
-			return StepExp{Alts: []Alt{{Replies: []RExp{code(EarlyMsgCode)}, Calls: calls, Next: s.endTx()}}}
+			replies := []RExp{code(EarlyMsgCode)}
+			if c.Last {
+				replies = finalReplies(cfg, s, code(EarlyMsgCode)) // LMTP: the LAST chunk is answered once per recipient
+			}
+			return StepExp{Alts: []Alt{{Replies: replies, Calls: calls, Next: s.endTx()}}}
 		}
 		if MsgVerdict(msg) == "earlypanic" && strings.Contains(string(msg), "\n") && len(msg) > len(firstLine(msg)) {
 			// the backend panics while this chunk is being copied: the server gives up on the connection
